@@ -137,6 +137,8 @@ pub fn check(c: &Case, ctx: &mut Ctx) -> Result<(), Failure> {
                 {
                     ("serialize", guarded(|| {
                         let _ = ind.ser();
+                        // a self-describing format as well (refusals and unrepresentable states are not C12's business)
+                        let _ = ind.roundtrip_json(false);
                     }))
                 }
                 #[cfg(not(feature = "serde"))]
